@@ -14,15 +14,15 @@
       body is answered in turn, left to right): `answers_are_derivable_partial`;
     * the facts the statement's last two sentences rest on (no leakage between alternatives,
       answer formatting).
-    * REFINEMENT on the cut-free, negation-free fragment (calls, built-ins other than `!`, conjunctions,
-      disjunctions, in queries and in every rule body) — `C01_pure`: for every such knowledge base, query,
+    * REFINEMENT on the cut-free fragment (calls, built-ins other than `!`, conjunctions, disjunctions,
+      negations, in queries and in every rule body) — `C01_pure`: for every such knowledge base, query,
       number of requests and fuel, what the successive requests return (answer or none, and the text
       written so far) is exactly what the reference machine of `Spec/PureMachine.lean` shows when started
       on the query: the same answers in the same order with the same multiplicity, none once the
       machine's stack is empty and for ever after. The machine is depth-first, left-to-right,
-      clause-order resolution by construction (a stack of `goals` / `try` frames, one rule per frame
-      kind) and the silent runs between two answers contain no other answer.
-  NOT proved: the refinement for programs with `!`, `not`, `time` (for those: soundness above, the C02 /
+      clause-order resolution by construction (a stack of `goals` / `try` / `notF` frames; a negation runs a search of its
+      own for the negated goal and keeps nothing of it but the counter and the text written) and the silent runs between two answers contain no other answer.
+  NOT proved: the refinement for programs with `!` or `time` (for those: soundness above, the C02 /
   C03 / C05 theorems, and the machine comparison on every run); uniqueness of the machine's run needs
   the fuel-monotonicity of the unification model and is not proved either.
 -/
@@ -67,7 +67,7 @@ theorem answers_are_derivable_partial (fo : FloatOps) (kb : KB) (q : Term) (σ0 
     (h : some σ' ∈ askN fo kb fs node g1) : Spec.Derives fo kb (.call q) σ0 σ' :=
   askN_sound fo kb fs node g1 _ (Spec.mkNode_sound fo kb _ σ0 g0 node g1 _ hmk (fun _ h => h)) σ' h
 
-/-- REFINEMENT, cut-free and negation-free fragment: the requests on the base node of a query show exactly
+/-- REFINEMENT, cut-free fragment (negation included): the requests on the base node of a query show exactly
     the behaviour of the reference machine started on that query. -/
 theorem C01_pure (fo : FloatOps) (kb : KB)
     (hkb : ∀ key rs, kb.get key = some rs → ∀ r ∈ rs, r.body.isNil = true ∨ Spec.pureG r.body = true)
@@ -231,11 +231,11 @@ theorem machine_answer_partial (fo : FloatOps) (kb : KB) (c : Spec.Config) (σ :
     (Spec.step fo kb c).1.answers = σ :: c.answers := by
   simp [Spec.step, h]
 
-/-! non-vacuity: a knowledge base with a fact and a rule whose body is a disjunction of a call and a
+/-! non-vacuity: a knowledge base with a fact and a rule whose body is a disjunction of a negated call and a
     unification meets the hypothesis of `C01_pure` -/
 def kbEx : KB := [("p/1", [⟨.cplx (.cons (.atom "p") (.cons (.atom "a") .nil)), .nil⟩,
                             ⟨.cplx (.cons (.atom "p") (.cons (.var 0 "$X") .nil)),
-                             .or (.cons (.call (.cplx (.cons (.atom "q") (.cons (.var 0 "$X") .nil))))
+                             .or (.cons (.not (.cons (.call (.cplx (.cons (.atom "q") (.cons (.var 0 "$X") .nil)))) .nil))
                                   (.cons (.bip "unify" (some (.cons (.var 0 "$X") (.cons (.atom "b") .nil)))) .nil))⟩])]
 example : ∀ key rs, kbEx.get key = some rs → ∀ r ∈ rs, r.body.isNil = true ∨ Spec.pureG r.body = true := by
   intro key rs h r hr
